@@ -14,7 +14,7 @@
               cv_.notify_all();
           }
       }
-      wait_yield(lambda) = wait(lambda).
+      wait_yield(lambda) = wait(lambda).   Lambda defaults to NoOperation<void> (wait() / wait_yield()).
 
     Non-atomic computation is attached to the following shim event of the same thread (see Ev.v): the
     arrival  current = step_; counts_[current]++  and the branch test happen at the first [OWaitB] (not last)
@@ -41,6 +41,7 @@ Record bthread : Type := mkBT { bpc : bpcT; cur : nat; gen : nat; left : nat }.
 
 Record bstate : Type := mkB {
   bn : nat;                    (* thread_count_ *)
+  bsil : nat -> bool;          (* scenario: generation g is crossed with the default NoOperation lambda (no act note) *)
   cnt : nat -> nat;            (* counts_[0], counts_[1] *)
   stp : nat;                   (* step_ *)
   bowner : option nat;
@@ -51,15 +52,15 @@ Record bstate : Type := mkB {
   acts : list (nat * nat)      (* ghost: (thread, generation) of each action, latest first *)
 }.
 
-Definition binit (n : nat) (gens : list nat) : bstate :=
-  mkB n (fun _ => 0) 0 None []
+Definition binit (n : nat) (sil : nat -> bool) (gens : list nat) : bstate :=
+  mkB n sil (fun _ => 0) 0 None []
       (fun t => match nth_error gens t with Some k => mkBT BIdle 0 0 k | None => mkBT BDone 0 0 0 end)
       0 [] [].
 
 Definition flip (x : nat) : nat := if x =? 0 then 1 else 0.   (* step_ ? 0 : 1 *)
 
 Definition set_thr (s : bstate) (t : nat) (th : bthread) : bstate :=
-  mkB (bn s) (cnt s) (stp s) (bowner s) (bsleepers s) (upd (bthr s) t th) (bG s) (arrived s) (acts s).
+  mkB (bn s) (bsil s) (cnt s) (stp s) (bowner s) (bsleepers s) (upd (bthr s) t th) (bG s) (arrived s) (acts s).
 
 Definition bstep (spur : bool) (s : bstate) (e : event) : option bstate :=
   let (t, o) := e in
@@ -77,7 +78,7 @@ Definition bstep (spur : bool) (s : bstate) (e : event) : option bstate :=
       end
   | BEntered, OLock =>
       match bowner s with
-      | None => Some (mkB (bn s) (cnt s) (stp s) (Some t) (bsleepers s)
+      | None => Some (mkB (bn s) (bsil s) (cnt s) (stp s) (Some t) (bsleepers s)
                           (upd (bthr s) t (mkBT BLocked (cur th) (gen th) (left th)))
                           (bG s) (arrived s) (acts s))
       | Some _ => None
@@ -85,25 +86,36 @@ Definition bstep (spur : bool) (s : bstate) (e : event) : option bstate :=
   | BLocked, OWaitB =>
       (* current = step_; counts_[current]++; counts_[current] < thread_count_: wait *)
       if cnt s (stp s) + 1 <? bn s
-      then Some (mkB (bn s) (upd (cnt s) (stp s) (cnt s (stp s) + 1)) (stp s) None (t :: bsleepers s)
+      then Some (mkB (bn s) (bsil s) (upd (cnt s) (stp s) (cnt s (stp s) + 1)) (stp s) None (t :: bsleepers s)
                      (upd (bthr s) t (mkBT BSleep (stp s) (gen th) (left th)))
                      (bG s) (t :: arrived s) (acts s))
       else None
   | BLocked, OAct g =>
       (* last arriver: counts_[current]++; step_ = step_ ? 0 : 1; counts_[step_] = 0; lambda() *)
       if cnt s (stp s) + 1 <? bn s then None
+      else if bsil s (gen th) then None
       else if g =? gen th
-      then Some (mkB (bn s) (upd (upd (cnt s) (stp s) (cnt s (stp s) + 1)) (flip (stp s)) 0) (flip (stp s))
+      then Some (mkB (bn s) (bsil s) (upd (upd (cnt s) (stp s) (cnt s (stp s) + 1)) (flip (stp s)) 0) (flip (stp s))
                      (bowner s) (bsleepers s)
                      (upd (bthr s) t (mkBT BActed (stp s) (gen th) (left th)))
                      (bG s + 1) [] ((t, gen th) :: acts s))
       else None
+  | BLocked, ONotifyAll =>
+      (* last arriver of a generation crossed with wait() / wait_yield() without lambda: the same updates, the
+         default NoOperation lambda runs silently (no event), then cv_.notify_all() *)
+      if cnt s (stp s) + 1 <? bn s then None
+      else if bsil s (gen th)
+      then Some (mkB (bn s) (bsil s) (upd (upd (cnt s) (stp s) (cnt s (stp s) + 1)) (flip (stp s)) 0) (flip (stp s))
+                     (bowner s) []
+                     (upd (bthr s) t (mkBT BNotified (stp s) (gen th) (left th)))
+                     (bG s + 1) [] ((t, gen th) :: acts s))
+      else None
   | BActed, ONotifyAll =>
-      Some (mkB (bn s) (cnt s) (stp s) (bowner s) []
+      Some (mkB (bn s) (bsil s) (cnt s) (stp s) (bowner s) []
                 (upd (bthr s) t (mkBT BNotified (cur th) (gen th) (left th)))
                 (bG s) (arrived s) (acts s))
   | BNotified, OUnlock =>
-      Some (mkB (bn s) (cnt s) (stp s) None (bsleepers s)
+      Some (mkB (bn s) (bsil s) (cnt s) (stp s) None (bsleepers s)
                 (upd (bthr s) t (mkBT BLeaving (cur th) (gen th + 1) (left th - 1)))
                 (bG s) (arrived s) (acts s))
   | BSleep, OWaitE sp =>
@@ -111,25 +123,25 @@ Definition bstep (spur : bool) (s : bstate) (e : event) : option bstate :=
       | None =>
           if sp
           then (if spur && mem t (bsleepers s)
-                then Some (mkB (bn s) (cnt s) (stp s) (Some t) (rem t (bsleepers s))
+                then Some (mkB (bn s) (bsil s) (cnt s) (stp s) (Some t) (rem t (bsleepers s))
                                (upd (bthr s) t (mkBT BWoken (cur th) (gen th) (left th)))
                                (bG s) (arrived s) (acts s))
                 else None)
           else (if mem t (bsleepers s) then None
-                else Some (mkB (bn s) (cnt s) (stp s) (Some t) (bsleepers s)
+                else Some (mkB (bn s) (bsil s) (cnt s) (stp s) (Some t) (bsleepers s)
                                (upd (bthr s) t (mkBT BWoken (cur th) (gen th) (left th)))
                                (bG s) (arrived s) (acts s)))
       | Some _ => None
       end
   | BWoken, OWaitB =>
       if cnt s (cur th) <? bn s
-      then Some (mkB (bn s) (cnt s) (stp s) None (t :: bsleepers s)
+      then Some (mkB (bn s) (bsil s) (cnt s) (stp s) None (t :: bsleepers s)
                      (upd (bthr s) t (mkBT BSleep (cur th) (gen th) (left th)))
                      (bG s) (arrived s) (acts s))
       else None
   | BWoken, OUnlock =>
       if cnt s (cur th) <? bn s then None
-      else Some (mkB (bn s) (cnt s) (stp s) None (bsleepers s)
+      else Some (mkB (bn s) (bsil s) (cnt s) (stp s) None (bsleepers s)
                      (upd (bthr s) t (mkBT BLeaving (cur th) (gen th + 1) (left th - 1)))
                      (bG s) (arrived s) (acts s))
   | BLeaving, OOut g =>
@@ -141,8 +153,8 @@ Definition bstep (spur : bool) (s : bstate) (e : event) : option bstate :=
 
 Definition brun (spur : bool) := run (bstep spur).
 
-Definition breachable (spur : bool) (n : nat) (gens : list nat) (s : bstate) : Prop :=
-  exists tr, brun spur (binit n gens) tr = Some s.
+Definition breachable (spur : bool) (n : nat) (sil : nat -> bool) (gens : list nat) (s : bstate) : Prop :=
+  exists tr, brun spur (binit n sil gens) tr = Some s.
 
 Definition bquiescent (spur : bool) (s : bstate) : Prop := forall e, bstep spur s e = None.
 
